@@ -27,8 +27,9 @@ try:
     shutil.copy(demo, dst)
     test = f"go test -count=1 -vet=off {'-run ' + run if run else ''} ./{pkg}/ 2>&1 | grep -E '^(--- FAIL|FAIL|ok|panic)' | grep -v TestPackageExternalImportModule"
     def demo_fails():
-        r = sh(f"go test -count=1 -vet=off -run 'TestSeed|TestDemo|Seed' ./{pkg}/", cwd=wt)
-        return ("--- FAIL" in r.stdout or "panic:" in r.stdout or "FAIL\t" in r.stdout and "TestPackageExternalImportModule" not in r.stdout), r.stdout[-600:]
+        race = "-race " if (meta.get("property") == "C11" or "-race" in json.dumps(meta)) else ""
+        r = sh(f"go test {race}-count=1 -vet=off -run 'TestSeed|TestDemo|Seed' ./{pkg}/", cwd=wt)
+        return ("--- FAIL" in r.stdout or "panic:" in r.stdout or "DATA RACE" in r.stdout or "FAIL\t" in r.stdout and "TestPackageExternalImportModule" not in r.stdout), r.stdout[-600:]
     f0, o0 = demo_fails()
     res["demo_passes_without_patch"] = not f0
     a = sh(f"git apply {os.path.join(d, 'patch.diff')}", cwd=wt)
